@@ -131,13 +131,32 @@ Definition stops (q : Z) (tk : ptok) : Prop :=
   pty tk = token_SEMICOLON \/ precedence_of (pty tk) <= q
   \/ ((pty tk = token_LPAREN \/ pty tk = token_LBRACKET) /\ pk_ws tk = true).
 Definition follow (e : ex) (tk : ptok) : Prop :=
-  match e with EAtom _ _ => True | _ => stops (lvl e) tk end.
+  match e with EAtom _ _ | ECall _ _ _ | EIndex _ _ _ => True | _ => stops (lvl e) tk end.
 
 (* parseExpression at level p on [ts ++ tk :: more] behaves as the expression loop entered with left = n
    after the last token of ts *)
-Definition Parses (p : Z) (ts : list tok) (n : node) (K : ptok -> Prop) : Prop :=
+(* the parser's tokens carry the listed tokens; a glued token has no white space in front of it *)
+Definition mt_ok (pt : ptok) (m : mtok) : Prop := pk pt = fst m /\ (snd m = true -> pk_ws pt = false).
+Definition matches (pts : list ptok) (ms : list mtok) : Prop := Forall2 mt_ok pts ms.
+
+Lemma matches_length pts ms : matches pts ms -> List.length pts = List.length ms.
+Proof. induction 1; cbn; congruence. Qed.
+Lemma matches_app_inv pts a b : matches pts (a ++ b) ->
+  exists p1 p2, pts = p1 ++ p2 /\ matches p1 a /\ matches p2 b.
+Proof. intros H. apply Forall2_app_inv_r in H as (p1 & p2 & H1 & H2 & ->). eauto. Qed.
+Lemma matches_cons_inv pts m ms : matches pts (m :: ms) ->
+  exists pt pts', pts = pt :: pts' /\ mt_ok pt m /\ matches pts' ms.
+Proof. intros H. inversion H; subst. eauto. Qed.
+Lemma matches_nil_inv pts : matches pts [] -> pts = [].
+Proof. intros H. now inversion H. Qed.
+Lemma matches_nonempty pts ms : matches pts ms -> ms <> [] -> pts <> [].
+Proof. intros H Hn ->. inversion H; subst. congruence. Qed.
+Lemma matches_pl pt t : mt_ok pt (pl t) -> pk pt = t.
+Proof. intros [H _]. exact H. Qed.
+
+Definition Parses (p : Z) (ts : list mtok) (n : node) (K : ptok -> Prop) : Prop :=
   forall pts tk s x s',
-    map pk pts = ts -> K tk ->
+    matches pts ts -> K tk ->
     view s (pts ++ [tk]) ->
     (exists f, el f p (Some n) (skip (List.length ts - 1) s) = ROk x s') ->
     exists f, pe f p s = ROk x s'.
@@ -201,10 +220,11 @@ Lemma fact_false : table_get prefix_fns token_FALSE = Some "parseBoolean"%string
 Lemma fact_eol_noprefix0 : table_get prefix_fns token_EOL = None. Proof. reflexivity. Qed.
 
 (* one-token operands *)
-Lemma parses_atom t a : atom_wf conv t a = true -> forall p, Parses p [t] (atom_node t a) tkok.
+Lemma parses_atom t a : atom_wf conv t a = true -> forall p, Parses p [pl t] (atom_node t a) tkok.
 Proof.
   intros Hwf p pts tk s x s' Hm [Hk1 Hk2] Hs [f Hel].
-  destruct pts as [|pt [|? ?]]; try discriminate Hm. cbn in Hm. injection Hm as Hm.
+  apply matches_cons_inv in Hm as (pt & pts' & -> & Hm & Hnil). apply matches_nil_inv in Hnil. subst pts'.
+  apply matches_pl in Hm.
   cbn [app] in Hs. pose proof (view_cur _ _ _ Hs) as Hc. pose proof (view_peek _ _ _ _ Hs) as Hp.
   cbn [List.length Nat.sub skip] in Hel.
   assert (Hgo : forall fn, table_get prefix_fns (ttype t) = Some fn ->
@@ -242,18 +262,19 @@ Proof. destruct l; cbn; congruence. Qed.
 Definition isRP (t : ptok) : Prop := pk t = RP.
 
 Lemma parses_paren ts n : ts <> [] -> Parses ast_LOWEST ts n isRP ->
-  forall p, Parses p (LP :: ts ++ [RP]) n tkok.
+  forall p, Parses p (pl LP :: ts ++ [pl RP]) n tkok.
 Proof.
   intros Hne Hin p pts tk s x s' Hm [Hk1 Hk2] Hs [f0 Hel].
-  destruct pts as [|lp pts]; [discriminate Hm|]. cbn [map] in Hm. injection Hm as Hlp Hm.
-  apply map_eq_app in Hm as (pts1 & rps & -> & Hm1 & Hm2).
-  destruct rps as [|rp [|? ?]]; try discriminate Hm2. cbn in Hm2. injection Hm2 as Hrp.
-  assert (Hp1 : pts1 <> []) by (apply (map_nonempty pk); now rewrite Hm1).
+  apply matches_cons_inv in Hm as (lp & pts0 & -> & Hlp & Hm). apply matches_pl in Hlp.
+  apply matches_app_inv in Hm as (pts1 & rps & -> & Hm1 & Hm2).
+  apply matches_cons_inv in Hm2 as (rp & rps' & -> & Hrp & Hnil). apply matches_nil_inv in Hnil. subst rps'.
+  apply matches_pl in Hrp.
+  assert (Hp1 : pts1 <> []) by (eapply matches_nonempty; eassumption).
   pose proof (view_cur _ _ _ Hs) as Hc.
   set (s1 := nextToken s).
   assert (Hs1 : view s1 ((pts1 ++ [rp]) ++ [tk])) by (eapply view_next; exact Hs).
   assert (Hs1' : view s1 (pts1 ++ [rp])) by (eapply view_prefix; exact Hs1).
-  assert (Hlen : List.length pts1 = List.length ts) by (rewrite <- Hm1; now rewrite map_length).
+  assert (Hlen : List.length pts1 = List.length ts) by (now apply matches_length).
   destruct (view_at_last _ _ _ Hs1' Hp1) as [lastp Hsin].
   rewrite Hlen in Hsin. set (sin := skip (List.length ts - 1) s1) in *.
   pose proof (view_peek _ _ _ _ Hsin) as Hpk.
@@ -279,7 +300,7 @@ Proof.
     unfold peekIs, expectPeek, peekIs. rewrite Hpk. unfold pty. rewrite Hrp. reflexivity.
   - now rewrite Hpk2.
   - eapply exprLoop_mono with (f := f0); [unfold F; lia|].
-    replace (nextToken sin) with (skip (List.length (LP :: ts ++ [RP]) - 1) s); [exact Hel|].
+    replace (nextToken sin) with (skip (List.length (pl LP :: ts ++ [pl RP]) - 1) s); [exact Hel|].
     unfold sin, s1.
     change (nextToken (skip (List.length ts - 1) (nextToken s))) with (skip 1 (skip (List.length ts - 1) (skip 1 s))).
     rewrite <- !skip_add. f_equal.
@@ -289,15 +310,15 @@ Qed.
 
 Lemma parses_prefix op ts n (K : ptok -> Prop) : is_prefix_op (ttype op) = true -> ts <> [] ->
   Parses ast_PREFIX ts n K ->
-  forall p, Parses p (op :: ts) (NPrefix op (Some n)) (fun tk => K tk /\ tkok tk /\ stops ast_PREFIX tk).
+  forall p, Parses p (pl op :: ts) (NPrefix op (Some n)) (fun tk => K tk /\ tkok tk /\ stops ast_PREFIX tk).
 Proof.
   intros Hop Hne Hin p pts tk s x s' Hm (HK & [Hk1 Hk2] & Hst) Hs [f0 Hel].
-  destruct pts as [|pop pts1]; [discriminate Hm|]. cbn [map] in Hm. injection Hm as Hpop Hm1.
-  assert (Hp1 : pts1 <> []) by (apply (map_nonempty pk); now rewrite Hm1).
+  apply matches_cons_inv in Hm as (pop & pts1 & -> & Hpop & Hm1). apply matches_pl in Hpop.
+  assert (Hp1 : pts1 <> []) by (eapply matches_nonempty; eassumption).
   pose proof (view_cur _ _ _ Hs) as Hc.
   set (s1 := nextToken s).
   assert (Hs1 : view s1 (pts1 ++ [tk])) by (eapply view_next; exact Hs).
-  assert (Hlen : List.length pts1 = List.length ts) by (rewrite <- Hm1; now rewrite map_length).
+  assert (Hlen : List.length pts1 = List.length ts) by (now apply matches_length).
   destruct (view_at_last _ _ _ Hs1 Hp1) as [lastp Hsin].
   rewrite Hlen in Hsin. set (sin := skip (List.length ts - 1) s1) in *.
   pose proof (view_peek _ _ _ _ Hsin) as Hpk.
@@ -315,33 +336,32 @@ Proof.
     rewrite (parseExpression_mono conv f1 F ast_PREFIX s1 _ _ (Nat.le_max_r f0 f1) Hpe). now rewrite Hc, Hpop.
   - now rewrite Hpk.
   - eapply exprLoop_mono with (f := f0); [unfold F; lia|].
-    replace sin with (skip (List.length (op :: ts) - 1) s); [exact Hel|].
+    replace sin with (skip (List.length (pl op :: ts) - 1) s); [exact Hel|].
     unfold sin, s1. cbn [List.length]. destruct ts; [congruence|]. cbn [List.length].
     replace (S (S (List.length ts)) - 1)%nat with (S (List.length ts)) by lia.
     replace (S (List.length ts) - 1)%nat with (List.length ts) by lia. reflexivity.
 Qed.
 
-Definition hd_not_rbracket (ts : list tok) : Prop :=
-  match ts with t :: _ => ttype t <> token_RBRACKET | [] => False end.
+Definition hd_not_rbracket (ts : list mtok) : Prop :=
+  match ts with t :: _ => ttype (fst t) <> token_RBRACKET | [] => False end.
 
 Lemma parses_bin op tsl tsr nl nr (KL KR : ptok -> Prop) :
   is_bin_op (ttype op) = true -> tsl <> [] -> hd_not_rbracket tsr ->
   forall p, p < precedence_of (ttype op) ->
   Parses p tsl nl KL -> Parses (precedence_of (ttype op)) tsr nr KR ->
   (forall pt, pk pt = op -> KL pt) ->
-  Parses p (tsl ++ [op] ++ tsr) (NInfix op (Some nl) (Some nr))
+  Parses p (tsl ++ [pl op] ++ tsr) (NInfix op (Some nl) (Some nr))
          (fun tk => KR tk /\ stops (precedence_of (ttype op)) tk).
 Proof.
   intros Hop Hnl Hhd p Hp HL HR HKL pts tk s x s' Hm [HK Hst] Hs [f0 Hel].
   set (q := precedence_of (ttype op)) in *.
-  apply map_eq_app in Hm as (ptsl & rest & -> & Hml & Hm2).
-  cbn [app] in Hm2. destruct rest as [|pop ptsr]; [discriminate Hm2|]. cbn [map] in Hm2.
-  injection Hm2 as Hpop Hmr.
-  assert (Hpl : ptsl <> []) by (apply (map_nonempty pk); now rewrite Hml).
+  apply matches_app_inv in Hm as (ptsl & rest & -> & Hml & Hm2).
+  cbn [app] in Hm2. apply matches_cons_inv in Hm2 as (pop & ptsr & -> & Hpop & Hmr). apply matches_pl in Hpop.
+  assert (Hpl : ptsl <> []) by (eapply matches_nonempty; eassumption).
   assert (Hnr : tsr <> []) by (destruct tsr; [contradiction|discriminate]).
-  assert (Hpr : ptsr <> []) by (apply (map_nonempty pk); now rewrite Hmr).
-  assert (Hlenl : List.length ptsl = List.length tsl) by (rewrite <- Hml; now rewrite map_length).
-  assert (Hlenr : List.length ptsr = List.length tsr) by (rewrite <- Hmr; now rewrite map_length).
+  assert (Hpr : ptsr <> []) by (eapply matches_nonempty; eassumption).
+  assert (Hlenl : List.length ptsl = List.length tsl) by (now apply matches_length).
+  assert (Hlenr : List.length ptsr = List.length tsr) by (now apply matches_length).
   pose proof (bin_op_ok _ Hop) as Hok. unfold binop_ok in Hok. cbv zeta in Hok. fold q in Hok.
   repeat (apply andb_true_iff in Hok as [Hok ?]).
   (* views: left operand and operator; operator, right operand and follower *)
@@ -380,11 +400,11 @@ Proof.
     rewrite infixFn_bin. unfold curPrecedence, peekIs. rewrite HcI, HpkI. unfold pty. rewrite Hpop. fold q.
     replace (ttype (pk r1) =? token_RBRACKET) with false.
     2:{ symmetry. apply Z.eqb_neq. destruct tsr as [|t1 tsr']; [contradiction|].
-        cbn [map] in Hmr. injection Hmr as -> _. exact Hhd. }
+        inversion Hmr as [|? ? ? ? [Hr1 _] _]; subst. rewrite Hr1. exact Hhd. }
     rewrite andb_false_r. fold sR.
     rewrite (parseExpression_mono conv f1 F q sR _ _ (Nat.le_max_r f0 f1) Hpe).
     eapply exprLoop_mono with (f := f0); [unfold F; lia|].
-    replace sE with (skip (List.length (tsl ++ [op] ++ tsr) - 1) s); [exact Hel|].
+    replace sE with (skip (List.length (tsl ++ [pl op] ++ tsr) - 1) s); [exact Hel|].
     unfold sE, sR, sL.
     change (nextToken (nextToken (skip (List.length tsl - 1) s))) with (skip 1 (skip 1 (skip (List.length tsl - 1) s))).
     rewrite <- !skip_add. f_equal. rewrite !app_length. cbn [List.length].
@@ -396,7 +416,60 @@ Qed.
 Lemma parses_weaken p ts n (K K' : ptok -> Prop) : (forall tk, K' tk -> K tk) -> Parses p ts n K -> Parses p ts n K'.
 Proof. intros HKK H pts tk s x s' Hm HK'. apply H; [exact Hm|now apply HKK]. Qed.
 
+(* ---------- monotonicity of the list functions, from Parser_mono ---------- *)
+Lemma exprListLoop_mono f f' endt acc s x s' : (f <= f')%nat ->
+  exprListLoop conv f endt acc s = ROk x s' -> exprListLoop conv f' endt acc s = ROk x s'.
+Proof.
+  induction 1 as [|f' Hle IH]; [auto|]. intros H.
+  destruct (mono_all conv f') as (_ & _ & _ & _ & _ & _ & _ & _ & _ & _ & _ & HELL & _). apply HELL, IH, H.
+Qed.
+Lemma parseExpressionList_mono f f' endt s x s' : (f <= f')%nat ->
+  parseExpressionList conv f endt s = ROk x s' -> parseExpressionList conv f' endt s = ROk x s'.
+Proof.
+  induction 1 as [|f' Hle IH]; [auto|]. intros H.
+  destruct (mono_all conv f') as (_ & _ & _ & _ & _ & _ & _ & _ & _ & _ & HEL & _). apply HEL, IH, H.
+Qed.
+
+(* ---------- the shape of body ---------- *)
+Lemma body_pre op r : body (EPre op r) = pl op :: toks ast_PREFIX r. Proof. reflexivity. Qed.
+Lemma body_bin op l r :
+  body (EBin op l r) = toks (precedence_of (ttype op)) l ++ [pl op] ++ toks (right_ctx op r) r.
+Proof. reflexivity. Qed.
+Lemma body_index t l i :
+  body (EIndex t l i) = toks (precedence_of (ttype t)) l ++ [(t, true)] ++ toks ast_LOWEST i ++ [pl RB].
+Proof. reflexivity. Qed.
+Lemma body_call t f args : body (ECall t f args) = toks ast_CALL f ++ [(t, true)] ++ arg_toks args ++ [pl RP].
+Proof.
+  reflexivity.
+Qed.
+
+(* induction over ex with the argument lists *)
+Section ex_ind2.
+  Variable P : ex -> Prop.
+  Hypothesis H_atom : forall t a, P (EAtom t a).
+  Hypothesis H_pre : forall op e, P e -> P (EPre op e).
+  Hypothesis H_bin : forall op l r, P l -> P r -> P (EBin op l r).
+  Hypothesis H_call : forall t f args, P f -> Forall P args -> P (ECall t f args).
+  Hypothesis H_index : forall t l i, P l -> P i -> P (EIndex t l i).
+  Fixpoint ex_ind2 (e : ex) : P e :=
+    match e return P e with
+    | EAtom t a => H_atom t a
+    | EPre op r => H_pre op r (ex_ind2 r)
+    | EBin op l r => H_bin op l r (ex_ind2 l) (ex_ind2 r)
+    | ECall t f args =>
+      H_call t f args (ex_ind2 f)
+        ((fix go (l : list ex) : Forall P l :=
+            match l return Forall P l with [] => Forall_nil _ | a :: r => Forall_cons a (ex_ind2 a) (go r) end) args)
+    | EIndex t l i => H_index t l i (ex_ind2 l) (ex_ind2 i)
+    end.
+End ex_ind2.
+
 (* ---------- arithmetic of the printer's decisions ---------- *)
+Lemma fact_levels : ast_PREFIX = 11 /\ ast_LOWEST = 1 /\ ast_CALL = 12 /\
+  precedence_of token_LPAREN = 12 /\ precedence_of token_LBRACKET = 13 /\
+  precedence_of token_COMMA = 1 /\ precedence_of token_RBRACKET = 1.
+Proof. vm_compute. repeat split. Qed.
+
 Lemma bin_q op : is_bin_op (ttype op) = true -> 1 < precedence_of (ttype op) < 11.
 Proof.
   intros H. apply bin_op_ok in H. unfold binop_ok in H. cbv zeta in H.
@@ -406,15 +479,15 @@ Qed.
 
 Lemma lvl_low e : wf_ex conv e = true -> 1 < lvl e.
 Proof.
-  destruct e as [t a|op r|op l r]; cbn [lvl wf_ex]; intros H; try lia.
-  - destruct fact_prefix_val as (-> & _). lia.
-  - repeat (apply andb_true_iff in H as [H ?]). pose proof (bin_q _ H). lia.
+  destruct fact_levels as (E11 & E1 & E12 & _).
+  destruct e as [t a|op r|op l r|t f args|t l i]; cbn [lvl wf_ex]; intros H; rewrite ?E11, ?E12; try lia.
+  repeat (apply andb_true_iff in H as [H ?]). pose proof (bin_q _ H). lia.
 Qed.
 
 Lemma unparen_lvl c e : wf_ex conv e = true -> paren c e = false -> c <= 11 -> c <= lvl e.
 Proof.
-  destruct fact_prefix_val as (E & _).
-  destruct e as [t a|op r|op l r]; cbn [lvl paren]; intros _ H Hc; rewrite ?E in *; lia.
+  destruct fact_levels as (E11 & E1 & E12 & _).
+  destruct e as [t a|op r|op l r|t f args|t l i]; cbn [lvl paren]; intros _ H Hc; rewrite ?E11, ?E12 in *; lia.
 Qed.
 
 Lemma follow_of_stops e q tk : stops q tk -> q <= lvl e -> follow e tk.
@@ -427,8 +500,8 @@ Lemma right_lvl op l r : wf_ex conv (EBin op l r) = true ->
   paren (right_ctx op r) r = false -> precedence_of (ttype op) < lvl r /\ right_ctx op r <= 11.
 Proof.
   cbn [wf_ex]. intros H Hp. repeat (apply andb_true_iff in H as [H ?]).
-  pose proof (bin_q _ H) as Hq. destruct fact_prefix_val as (E & _).
-  destruct r as [t a|rop rr|rop rl rr]; cbn [lvl right_ctx paren] in *; rewrite ?E in *; try lia.
+  pose proof (bin_q _ H) as Hq. destruct fact_levels as (E11 & E1 & E12 & _).
+  destruct r as [t a|rop rr|rop rl rr|t f args|t rl ri]; cbn [lvl right_ctx paren] in *; rewrite ?E11, ?E12 in *; try lia.
   match goal with X : negb _ = true |- _ => apply negb_true_iff in X; rewrite X in * end. lia.
 Qed.
 
@@ -443,34 +516,36 @@ Proof.
   - unfold has_prefix_fn in H. destruct (table_get prefix_fns (ttype t)); [discriminate|discriminate H].
 Qed.
 
+Definition hd_prefix (ts : list mtok) : Prop :=
+  match ts with t :: _ => table_get prefix_fns (ttype (fst t)) <> None | [] => False end.
+Lemma hd_prefix_app a b : hd_prefix a -> hd_prefix (a ++ b).
+Proof. destruct a; [contradiction|auto]. Qed.
+Lemma hd_prefix_lp ts : hd_prefix (pl LP :: ts). Proof. cbn. discriminate. Qed.
+
 (* the first token of body e has a prefix parse function *)
-Lemma body_hd_prefix e : wf_ex conv e = true ->
-  match body e with t :: _ => table_get prefix_fns (ttype t) <> None | [] => False end.
+Lemma body_hd_prefix e : wf_ex conv e = true -> hd_prefix (body e).
 Proof.
-  induction e as [t a|op r IH|op l IHl r IHr]; cbn [body wf_ex]; intros H.
-  - now apply atom_has_prefix in H.
-  - apply andb_true_iff in H as [H _]. apply prefix_op_fn in H. rewrite H. discriminate.
-  - repeat (apply andb_true_iff in H as [H ?]).
-    destruct (paren (precedence_of (ttype op)) l); cbn; [discriminate|].
-    match goal with X : wf_ex conv l = true |- _ => specialize (IHl X) end.
-    destruct (body l); [contradiction|exact IHl].
+  assert (W : forall c x, hd_prefix (body x) -> hd_prefix (toks c x))
+    by (intros c x Hx; unfold toks; destruct (paren c x); [apply hd_prefix_lp|exact Hx]).
+  induction e as [t a|op r IH|op l r IHl IHr|t f args IHf IHa|t l i IHl IHi] using ex_ind2; intros H; cbn [wf_ex] in H.
+  - cbn. now apply atom_has_prefix in H.
+  - rewrite body_pre. apply andb_true_iff in H as [H _]. apply prefix_op_fn in H. cbn [hd_prefix pl fst]. rewrite H. discriminate.
+  - rewrite body_bin. repeat (apply andb_true_iff in H as [H ?]). apply hd_prefix_app, W, IHl. assumption.
+  - rewrite body_call. repeat (apply andb_true_iff in H as [H ?]). apply hd_prefix_app, W, IHf. assumption.
+  - rewrite body_index. repeat (apply andb_true_iff in H as [H ?]). apply hd_prefix_app, W, IHl. assumption.
 Qed.
 
 Lemma body_nonempty e : body e <> [].
-Proof.
-  destruct e as [t a|op r|op l r]; cbn [body]; try discriminate.
-  intros H. apply app_eq_nil in H as [_ H]. discriminate H.
-Qed.
+Proof. destruct e; cbn [body]; try discriminate; intros H; apply app_eq_nil in H as [_ H]; discriminate H. Qed.
 Lemma toks_nonempty c e : toks c e <> [].
 Proof. unfold toks. destruct (paren c e); [discriminate|apply body_nonempty]. Qed.
+Lemma toks_hd_prefix c e : wf_ex conv e = true -> hd_prefix (toks c e).
+Proof. intros H. unfold toks. destruct (paren c e); [apply hd_prefix_lp|now apply body_hd_prefix]. Qed.
 
-Lemma body_hd e : wf_ex conv e = true -> hd_not_rbracket (body e).
-Proof.
-  intros H. apply body_hd_prefix in H. destruct (body e) as [|t l]; [contradiction|].
-  cbn. intros E. rewrite E, fact_rbracket_noprefix in H. now apply H.
-Qed.
+Lemma hd_prefix_not_rbracket ts : hd_prefix ts -> hd_not_rbracket ts.
+Proof. destruct ts as [|t l]; [auto|]. cbn [hd_prefix hd_not_rbracket]. intros H E. rewrite E, fact_rbracket_noprefix in H. now apply H. Qed.
 Lemma toks_hd c e : wf_ex conv e = true -> hd_not_rbracket (toks c e).
-Proof. intros H. unfold toks. destruct (paren c e); [cbn; discriminate|now apply body_hd]. Qed.
+Proof. intros H. now apply hd_prefix_not_rbracket, toks_hd_prefix. Qed.
 
 (* the follower conditions of the two statements *)
 Definition KB (e : ex) (tk : ptok) : Prop := tkok tk /\ follow e tk.
@@ -491,7 +566,7 @@ Proof.
     + eapply parses_weaken; [|apply HB].
       * intros rp Hrp. split; [now apply rp_tkok|].
         apply follow_of_stops with (q := 1).
-        -- right. unfold pty. rewrite Hrp. cbn [ttype RP]. rewrite fact_rparen_prec.
+        -- right. left. unfold pty. rewrite Hrp. cbn [ttype RP]. rewrite fact_rparen_prec.
            destruct fact_prefix_val as (_ & -> & _). lia.
         -- pose proof (lvl_low _ Hwf). lia.
       * destruct fact_prefix_val as (_ & -> & _). now apply lvl_low.
@@ -499,21 +574,315 @@ Proof.
     intros tk [H1 H2]. split; [exact H1|now apply H2].
 Qed.
 
+(* ---------- calls ---------- *)
+Lemma fact_call_fn : table_get infix_fns token_LPAREN = Some "parseCallExpression"%string. Proof. reflexivity. Qed.
+Lemma fact_index_fn : table_get infix_fns token_LBRACKET = Some "parseIndexExpression"%string. Proof. reflexivity. Qed.
+Lemma fact_rparen_noprefix : table_get prefix_fns token_RPAREN = None. Proof. reflexivity. Qed.
+Lemma fact_comma_nopostfix : table_get postfix_fns token_COMMA = None. Proof. reflexivity. Qed.
+Lemma fact_rbracket_nopostfix : table_get postfix_fns token_RBRACKET = None. Proof. reflexivity. Qed.
+
+Lemma infixFn_call f left s : infixFn conv (S f) "parseCallExpression" left s =
+  (dob (l, s1) <- parseExpressionList conv f token_RPAREN s; ROk (Some (NCall (pk (ps_cur s)) left l)) s1).
+Proof. reflexivity. Qed.
+Lemma infixFn_index f left s : infixFn conv (S f) "parseIndexExpression" left s =
+  (let t := pk (ps_cur s) in
+   let isDot := Z.eqb (ttype t) token_DOT in
+   dob (i, s1) <- pe f (if isDot then ast_DOTINDEX else ast_LOWEST) (nextToken s);
+   if isDot then ROk (Some (NIndex t left i)) s1
+   else let '(ok, s2) := expectPeek s1 token_RBRACKET in
+        if ok then ROk (Some (NIndex t left i)) s2 else ROk None s2).
+Proof. reflexivity. Qed.
+
+(* what follows an argument or an index: `,` `)` `]` *)
+Definition sep_tok (tk : ptok) : Prop := pk tk = CM \/ pk tk = RP \/ pk tk = RB.
+Lemma sep_KT a tk : wf_ex conv a = true -> sep_tok tk -> KT ast_LOWEST a tk.
+Proof.
+  intros Hwf Hs. destruct fact_levels as (_ & E1 & _ & _ & _ & Ecm & Erb).
+  assert (Hst : stops 1 tk).
+  { right. left. unfold pty. destruct Hs as [->|[->| ->]]; cbn [ttype CM RP RB].
+    - rewrite Ecm. lia. - rewrite fact_rparen_prec, E1. lia. - rewrite Erb. lia. }
+  split.
+  - unfold tkok, pty. destruct Hs as [->|[->| ->]]; cbn [ttype CM RP RB]; split; try discriminate;
+      [exact fact_comma_nopostfix|exact fact_rparen_nopostfix|exact fact_rbracket_nopostfix].
+  - intros _. apply follow_of_stops with (q := 1); [exact Hst|]. pose proof (lvl_low a Hwf). lia.
+Qed.
+
+(* one argument (or index) parsed at the lowest level stops in front of the separator *)
+Lemma parse_operand a : wf_ex conv a = true -> ToksOk a ->
+  forall pts tk s, matches pts (toks ast_LOWEST a) -> sep_tok tk -> view s (pts ++ [tk]) ->
+  exists f, pe f ast_LOWEST s = ROk (Some (to_node a)) (skip (List.length pts - 1) s).
+Proof.
+  intros Hwf HT pts tk s Hm Hs Hv.
+  assert (Hpn : pts <> []) by (eapply matches_nonempty; [exact Hm|apply toks_nonempty]).
+  destruct (view_at_last _ _ _ Hv Hpn) as [lastp Hse].
+  pose proof (view_peek _ _ _ _ Hse) as Hpk.
+  pose proof (matches_length _ _ Hm) as Hlen.
+  destruct fact_levels as (_ & E1 & _).
+  eapply (HT ast_LOWEST ast_LOWEST ltac:(intros _; rewrite E1; now apply lvl_low) pts tk); [exact Hm|now apply sep_KT|exact Hv|].
+  rewrite <- Hlen. exists 1%nat. apply el_stop with (tk := tk); [|exact Hpk].
+  destruct (sep_KT a tk Hwf Hs) as [_ _]. right. left.
+  destruct fact_levels as (_ & E1' & _ & _ & _ & Ecm & Erb). unfold pty.
+  destruct Hs as [->|[->| ->]]; cbn [ttype CM RP RB]; rewrite ?Ecm, ?fact_rparen_prec, ?Erb, ?E1'; lia.
+Qed.
+
+(* the tokens after the first argument: `, a2 , a3 ...` *)
+Fixpoint rest_toks (l : list ex) : list mtok :=
+  match l with [] => [] | a :: r => pl CM :: toks ast_LOWEST a ++ rest_toks r end.
+Lemma arg_toks_cons a r : arg_toks (a :: r) = toks ast_LOWEST a ++ rest_toks r.
+Proof.
+  revert a. induction r as [|b r IH]; intros a; cbn [arg_toks rest_toks]; [now rewrite app_nil_r|].
+  f_equal. f_equal. exact (IH b).
+Qed.
+
+Definition ArgsOk (l : list ex) : Prop := Forall (fun a => wf_ex conv a = true /\ ToksOk a) l.
+
+Lemma args_loop rest : ArgsOk rest ->
+  forall acc lastp pts rp tk s, matches pts (rest_toks rest) -> pk rp = RP ->
+  view s (lastp :: pts ++ [rp; tk]) ->
+  exists f, exprListLoop conv f token_RPAREN acc s
+            = ROk (Some (acc ++ map (fun a => Some (to_node a)) rest)) (skip (S (List.length pts)) s).
+Proof.
+  induction 1 as [|a rest [Hwf HT] _ IH]; intros acc lastp pts rp tk s Hm Hrp Hv.
+  - apply matches_nil_inv in Hm. subst pts. cbn [app List.length] in *.
+    pose proof (view_peek _ _ _ _ Hv) as Hpk.
+    exists 1%nat. rewrite exprListLoop_S. unfold peekIs, expectPeek, peekIs. rewrite Hpk. unfold pty. rewrite Hrp.
+    cbn. now rewrite app_nil_r.
+  - cbn [rest_toks] in Hm. apply matches_cons_inv in Hm as (cm & pts0 & -> & Hcm & Hm). apply matches_pl in Hcm.
+    apply matches_app_inv in Hm as (ptsa & ptsr & -> & Hma & Hmr).
+    assert (Hpa : ptsa <> []) by (eapply matches_nonempty; [exact Hma|apply toks_nonempty]).
+    pose proof (view_peek _ _ _ _ Hv) as Hpk.
+    (* the state at the first token of a *)
+    set (s2 := nextToken (nextToken s)).
+    assert (Hv2 : view s2 (ptsa ++ ptsr ++ [rp; tk])).
+    { unfold s2. apply view_next with (a := cm). apply view_next with (a := lastp).
+      cbn [app] in Hv. rewrite <- app_assoc in Hv. exact Hv. }
+    (* what follows a: a comma or the closing parenthesis *)
+    assert (Hsep : exists tka more, ptsr ++ [rp; tk] = tka :: more /\ sep_tok tka).
+    { destruct rest as [|b rest'].
+      - apply matches_nil_inv in Hmr. subst ptsr. exists rp, [tk]. split; [reflexivity|]. right. left. exact Hrp.
+      - cbn [rest_toks] in Hmr. apply matches_cons_inv in Hmr as (c2 & p2 & -> & Hc2 & _). apply matches_pl in Hc2.
+        exists c2, (p2 ++ [rp; tk]). split; [reflexivity|]. left. exact Hc2. }
+    destruct Hsep as (tka & more & Esep & Hsep). rewrite Esep in Hv2.
+    assert (Hv2' : view s2 (ptsa ++ [tka])) by (apply view_prefix with (l2 := more); now rewrite <- app_assoc).
+    destruct (parse_operand a Hwf HT ptsa tka s2 Hma Hsep Hv2') as [f1 Hpe].
+    set (sa := skip (List.length ptsa - 1) s2) in *.
+    (* the loop continues from the last token of a *)
+    destruct (exists_last Hpa) as [ini [lasta Ela]].
+    assert (Hva : view sa (lasta :: ptsr ++ [rp; tk])).
+    { unfold sa. rewrite Ela, app_length. cbn [List.length]. replace (List.length ini + 1 - 1)%nat with (List.length ini) by lia.
+      apply view_skip with (l1 := ini). rewrite <- Esep in Hv2. rewrite Ela, <- app_assoc in Hv2. exact Hv2. }
+    destruct (IH (acc ++ [Some (to_node a)]) lasta ptsr rp tk sa Hmr Hrp Hva) as [f2 Hloop].
+    set (F := Nat.max f1 f2).
+    exists (S F). rewrite exprListLoop_S. unfold peekIs. rewrite Hpk. unfold pty. rewrite Hcm. cbn [ttype CM].
+    rewrite Z.eqb_refl. fold s2.
+    rewrite (parseExpression_mono conv f1 F ast_LOWEST s2 _ _ (Nat.le_max_l f1 f2) Hpe). fold sa.
+    rewrite (exprListLoop_mono f2 F _ _ _ _ _ (Nat.le_max_r f1 f2) Hloop).
+    f_equal.
+    + cbn [map]. now rewrite <- app_assoc.
+    + unfold sa, s2. change (nextToken (nextToken s)) with (skip 2 s). rewrite <- !skip_add. f_equal.
+      cbn [List.length]. rewrite app_length. destruct ptsa; [congruence|]. cbn [List.length]. lia.
+Qed.
+
+Lemma args_list args : ArgsOk args ->
+  forall lp pts rp tk s, matches pts (arg_toks args) -> pk rp = RP ->
+  view s (lp :: pts ++ [rp; tk]) ->
+  exists f, parseExpressionList conv f token_RPAREN s
+            = ROk (Some (map (fun a => Some (to_node a)) args)) (skip (S (List.length pts)) s).
+Proof.
+  intros HA lp pts rp tk s Hm Hrp Hv. destruct args as [|a rest].
+  - apply matches_nil_inv in Hm. subst pts. cbn [app List.length] in *.
+    pose proof (view_peek _ _ _ _ Hv) as Hpk.
+    exists 1%nat. rewrite parseExpressionList_S. unfold peekIs. rewrite Hpk. unfold pty. rewrite Hrp. reflexivity.
+  - rewrite arg_toks_cons in Hm. apply matches_app_inv in Hm as (ptsa & ptsr & -> & Hma & Hmr).
+    inversion HA as [|? ? [Hwf HT] HA']; subst.
+    assert (Hpa : ptsa <> []) by (eapply matches_nonempty; [exact Hma|apply toks_nonempty]).
+    set (s2 := nextToken s).
+    assert (Hv2 : view s2 (ptsa ++ ptsr ++ [rp; tk])).
+    { unfold s2. apply view_next with (a := lp). cbn [app] in Hv. rewrite <- app_assoc in Hv. exact Hv. }
+    assert (Hsep : exists tka more, ptsr ++ [rp; tk] = tka :: more /\ sep_tok tka).
+    { destruct rest as [|b rest'].
+      - apply matches_nil_inv in Hmr. subst ptsr. exists rp, [tk]. split; [reflexivity|]. right. left. exact Hrp.
+      - cbn [rest_toks] in Hmr. apply matches_cons_inv in Hmr as (c2 & p2 & -> & Hc2 & _). apply matches_pl in Hc2.
+        exists c2, (p2 ++ [rp; tk]). split; [reflexivity|]. left. exact Hc2. }
+    destruct Hsep as (tka & more & Esep & Hsep). rewrite Esep in Hv2.
+    assert (Hv2' : view s2 (ptsa ++ [tka])) by (apply view_prefix with (l2 := more); now rewrite <- app_assoc).
+    destruct (parse_operand a Hwf HT ptsa tka s2 Hma Hsep Hv2') as [f1 Hpe].
+    set (sa := skip (List.length ptsa - 1) s2) in *.
+    destruct (exists_last Hpa) as [ini [lasta Ela]].
+    assert (Hva : view sa (lasta :: ptsr ++ [rp; tk])).
+    { unfold sa. rewrite Ela, app_length. cbn [List.length]. replace (List.length ini + 1 - 1)%nat with (List.length ini) by lia.
+      apply view_skip with (l1 := ini). rewrite <- Esep in Hv2. rewrite Ela, <- app_assoc in Hv2. exact Hv2. }
+    destruct (args_loop rest HA' [Some (to_node a)] lasta ptsr rp tk sa Hmr Hrp Hva) as [f2 Hloop].
+    set (F := Nat.max f1 f2).
+    (* the first token of a is not `)` *)
+    assert (Hnrp : peekIs s token_RPAREN = false).
+    { pose proof (toks_hd_prefix ast_LOWEST a Hwf) as Hh.
+      destruct ptsa as [|p1 ptsa']; [congruence|]. cbn [app] in Hv.
+      pose proof (view_peek _ _ _ _ Hv) as Hpk. unfold peekIs. rewrite Hpk.
+      destruct (toks ast_LOWEST a) as [|m1 ms]; [contradiction|].
+      apply matches_cons_inv in Hma as (p1' & ? & Ep & [Hp1 _] & _). injection Ep as <- _.
+      cbn [hd_prefix] in Hh. unfold pty. rewrite Hp1.
+      apply Z.eqb_neq. intros X. rewrite X, fact_rparen_noprefix in Hh. now apply Hh. }
+    exists (S F). rewrite parseExpressionList_S, Hnrp. fold s2.
+    rewrite (parseExpression_mono conv f1 F ast_LOWEST s2 _ _ (Nat.le_max_l f1 f2) Hpe). fold sa.
+    rewrite (exprListLoop_mono f2 F _ _ _ _ _ (Nat.le_max_r f1 f2) Hloop).
+    f_equal. unfold sa, s2. change (nextToken s) with (skip 1 s). rewrite <- !skip_add. f_equal.
+    rewrite app_length. destruct ptsa; [congruence|]. cbn [List.length]. lia.
+Qed.
+
+(* f(a1, ..., an): callee parsed first, then the expression loop takes the glued `(` as a call *)
+Lemma parses_call t f args (K : ptok -> Prop) :
+  ttype t = token_LPAREN -> ArgsOk args ->
+  forall p, p < ast_CALL ->
+  Parses p (toks ast_CALL f) (to_node f) K ->
+  (forall pt, pk pt = t -> K pt) ->
+  Parses p (toks ast_CALL f ++ [(t, true)] ++ arg_toks args ++ [pl RP])
+         (NCall t (Some (to_node f)) (Some (map (fun a => Some (to_node a)) args))) (fun _ => True).
+Proof.
+  intros Ht HA p Hp HF HK pts tk s x s' Hm _ Hs [f0 Hel].
+  apply matches_app_inv in Hm as (ptsf & rest & -> & Hmf & Hm2).
+  cbn [app] in Hm2. apply matches_cons_inv in Hm2 as (lp & rest2 & -> & [Hlp Hws] & Hm3).
+  cbn [fst snd] in Hlp, Hws. specialize (Hws eq_refl).
+  apply matches_app_inv in Hm3 as (ptsa & rps & -> & Hma & Hm4).
+  apply matches_cons_inv in Hm4 as (rp & rps' & -> & Hrp & Hnil). apply matches_nil_inv in Hnil. subst rps'.
+  apply matches_pl in Hrp.
+  assert (Hpf : ptsf <> []) by (eapply matches_nonempty; [exact Hmf|apply toks_nonempty]).
+  pose proof (matches_length _ _ Hmf) as Hlenf. pose proof (matches_length _ _ Hma) as Hlena.
+  (* the callee and the parenthesis *)
+  assert (Hs0 : view s (ptsf ++ lp :: ptsa ++ [rp; tk])).
+  { rewrite <- !app_assoc in Hs. cbn [app] in Hs. rewrite <- app_assoc in Hs. exact Hs. }
+  assert (HvF : view s (ptsf ++ [lp])).
+  { apply view_prefix with (l2 := ptsa ++ [rp; tk]). rewrite <- app_assoc. exact Hs0. }
+  destruct (view_at_last _ _ _ HvF Hpf) as [lastf HsF]. rewrite Hlenf in HsF.
+  set (sF := skip (List.length (toks ast_CALL f) - 1) s) in *.
+  pose proof (view_peek _ _ _ _ HsF) as HpkF.
+  assert (HsL : view (nextToken sF) (lp :: ptsa ++ [rp; tk])).
+  { apply view_skip in Hs0. rewrite Hlenf in Hs0.
+    replace (nextToken sF) with (skip (List.length (toks ast_CALL f)) s); [exact Hs0|].
+    unfold sF. change (nextToken (skip ?k s)) with (skip 1 (skip k s)). rewrite <- skip_add. f_equal.
+    pose proof (toks_nonempty ast_CALL f). destruct (toks ast_CALL f); [congruence|cbn; lia]. }
+  pose proof (view_cur _ _ _ HsL) as HcL.
+  destruct (args_list args HA lp ptsa rp tk (nextToken sF) Hma Hrp HsL) as [f1 Hargs].
+  set (sE := skip (S (List.length ptsa)) (nextToken sF)) in *.
+  set (F := Nat.max f0 f1).
+  destruct fact_levels as (_ & _ & E12 & Elp & _).
+  assert (Hloop : el (S (S F)) p (Some (to_node f)) sF = ROk x s').
+  { rewrite exprLoop_S. unfold peekIs, peekPrecedence. rewrite HpkF. unfold pty. rewrite Hlp, Ht.
+    replace (token_LPAREN =? token_SEMICOLON) with false by reflexivity.
+    rewrite Elp. replace (p <? 12) with true by (symmetry; apply Z.ltb_lt; lia). cbn [negb andb]. cbv zeta.
+    rewrite fact_call_fn, Hws, andb_false_r.
+    rewrite infixFn_call.
+    rewrite (parseExpressionList_mono f1 F _ _ _ _ (Nat.le_max_r f0 f1) Hargs). fold sE.
+    rewrite HcL, Hlp.
+    eapply exprLoop_mono with (f := f0); [unfold F; lia|].
+    replace sE with (skip (List.length (toks ast_CALL f ++ [(t, true)] ++ arg_toks args ++ [pl RP]) - 1) s); [exact Hel|].
+    unfold sE, sF. change (nextToken (skip ?k s)) with (skip 1 (skip k s)). rewrite <- !skip_add. f_equal.
+    rewrite !app_length. cbn [List.length]. rewrite Hlena.
+    pose proof (toks_nonempty ast_CALL f). destruct (toks ast_CALL f); [congruence|cbn [List.length]; lia]. }
+  eapply (HF ptsf lp); [exact Hmf|now apply HK|exact HvF|].
+  exists (S (S F)). exact Hloop.
+Qed.
+
+(* l[i] *)
+Lemma parses_index t l i (K : ptok -> Prop) :
+  ttype t = token_LBRACKET -> wf_ex conv i = true -> ToksOk i ->
+  forall p, p < ast_CALL ->
+  Parses p (toks (precedence_of (ttype t)) l) (to_node l) K ->
+  (forall pt, pk pt = t -> K pt) ->
+  Parses p (toks (precedence_of (ttype t)) l ++ [(t, true)] ++ toks ast_LOWEST i ++ [pl RB])
+         (NIndex t (Some (to_node l)) (Some (to_node i))) (fun _ => True).
+Proof.
+  intros Ht Hwi HTi p Hp HL HK pts tk s x s' Hm _ Hs [f0 Hel].
+  set (cl := precedence_of (ttype t)) in *.
+  apply matches_app_inv in Hm as (ptsl & rest & -> & Hml & Hm2).
+  cbn [app] in Hm2. apply matches_cons_inv in Hm2 as (lb & rest2 & -> & [Hlb Hws] & Hm3).
+  cbn [fst snd] in Hlb, Hws. specialize (Hws eq_refl).
+  apply matches_app_inv in Hm3 as (ptsi & rbs & -> & Hmi & Hm4).
+  apply matches_cons_inv in Hm4 as (rb & rbs' & -> & Hrb & Hnil). apply matches_nil_inv in Hnil. subst rbs'.
+  apply matches_pl in Hrb.
+  assert (Hpl : ptsl <> []) by (eapply matches_nonempty; [exact Hml|apply toks_nonempty]).
+  assert (Hpi : ptsi <> []) by (eapply matches_nonempty; [exact Hmi|apply toks_nonempty]).
+  pose proof (matches_length _ _ Hml) as Hlenl. pose proof (matches_length _ _ Hmi) as Hleni.
+  assert (Hs0 : view s (ptsl ++ lb :: ptsi ++ [rb; tk])).
+  { rewrite <- !app_assoc in Hs. cbn [app] in Hs. rewrite <- app_assoc in Hs. exact Hs. }
+  assert (HvL : view s (ptsl ++ [lb])).
+  { apply view_prefix with (l2 := ptsi ++ [rb; tk]). rewrite <- app_assoc. exact Hs0. }
+  destruct (view_at_last _ _ _ HvL Hpl) as [lastl HsL]. rewrite Hlenl in HsL.
+  set (sL := skip (List.length (toks cl l) - 1) s) in *.
+  pose proof (view_peek _ _ _ _ HsL) as HpkL.
+  assert (HsB : view (nextToken sL) (lb :: ptsi ++ [rb; tk])).
+  { apply view_skip in Hs0. rewrite Hlenl in Hs0.
+    replace (nextToken sL) with (skip (List.length (toks cl l)) s); [exact Hs0|].
+    unfold sL. change (nextToken (skip ?k s)) with (skip 1 (skip k s)). rewrite <- skip_add. f_equal.
+    pose proof (toks_nonempty cl l). destruct (toks cl l); [congruence|cbn; lia]. }
+  pose proof (view_cur _ _ _ HsB) as HcB.
+  set (sI := nextToken (nextToken sL)).
+  assert (HvI : view sI (ptsi ++ [rb; tk])) by (unfold sI; eapply view_next; exact HsB).
+  assert (HvI' : view sI (ptsi ++ [rb])) by (apply view_prefix with (l2 := [tk]); now rewrite <- app_assoc).
+  destruct (parse_operand i Hwi HTi ptsi rb sI Hmi ltac:(right; right; exact Hrb) HvI') as [f1 Hpe].
+  set (sE := skip (List.length ptsi - 1) sI) in *.
+  (* the closing bracket *)
+  destruct (exists_last Hpi) as [ini [lasti Eli]].
+  assert (HvE : view sE [lasti; rb; tk]).
+  { unfold sE. rewrite Eli, app_length. cbn [List.length]. replace (List.length ini + 1 - 1)%nat with (List.length ini) by lia.
+    apply view_skip with (l1 := ini). rewrite Eli, <- app_assoc in HvI. exact HvI. }
+  pose proof (view_peek _ _ _ _ HvE) as HpkE.
+  set (F := Nat.max f0 f1).
+  destruct fact_levels as (_ & _ & E12 & _ & Elb & _).
+  assert (Hloop : el (S (S F)) p (Some (to_node l)) sL = ROk x s').
+  { rewrite exprLoop_S. unfold peekIs, peekPrecedence. rewrite HpkL. unfold pty. rewrite Hlb, Ht.
+    replace (token_LBRACKET =? token_SEMICOLON) with false by reflexivity.
+    rewrite Elb. replace (p <? 13) with true by (symmetry; apply Z.ltb_lt; lia). cbn [negb andb]. cbv zeta.
+    rewrite fact_index_fn, Hws, andb_false_r.
+    rewrite infixFn_index. cbv zeta. rewrite HcB, Hlb, Ht.
+    replace (token_LBRACKET =? token_DOT) with false by reflexivity. fold sI.
+    rewrite (parseExpression_mono conv f1 F ast_LOWEST sI _ _ (Nat.le_max_r f0 f1) Hpe). fold sE.
+    unfold expectPeek, peekIs. rewrite HpkE. unfold pty. rewrite Hrb. cbn [ttype RB]. rewrite Z.eqb_refl.
+    eapply exprLoop_mono with (f := f0); [unfold F; lia|].
+    replace (nextToken sE) with (skip (List.length (toks cl l ++ [(t, true)] ++ toks ast_LOWEST i ++ [pl RB]) - 1) s); [exact Hel|].
+    unfold sE, sI, sL.
+    change (nextToken (skip (List.length ptsi - 1) (nextToken (nextToken (skip (List.length (toks cl l) - 1) s)))))
+      with (skip 1 (skip (List.length ptsi - 1) (skip 1 (skip 1 (skip (List.length (toks cl l) - 1) s))))).
+    rewrite <- !skip_add. f_equal.
+    rewrite !app_length. cbn [List.length]. rewrite <- Hleni.
+    pose proof (toks_nonempty cl l). destruct (toks cl l); [congruence|]. destruct ptsi; [congruence|]. cbn [List.length]. lia. }
+  eapply (HL ptsl lb); [exact Hml|now apply HK|exact HvL|].
+  exists (S (S F)). exact Hloop.
+Qed.
+
+Lemma fact_lparen_nopostfix : table_get postfix_fns token_LPAREN = None. Proof. reflexivity. Qed.
+Lemma fact_lbracket_nopostfix : table_get postfix_fns token_LBRACKET = None. Proof. reflexivity. Qed.
+
+(* an operand printed without parentheses in the context of a call (12) or an index (13) is an atom, a call
+   or an index expression *)
+Lemma tight_ctx c f p : wf_ex conv f = true -> 12 <= c -> paren c f = false -> p < 12 ->
+  p < lvl f /\ forall tk, follow f tk.
+Proof.
+  intros Hwf Hc Hpar Hp. destruct fact_levels as (E11 & E1 & E12 & _).
+  destruct f as [t a|op r|op l r|t g args|t l i]; cbn [lvl paren follow wf_ex] in *; rewrite ?E11, ?E12 in *.
+  - split; [lia|auto].
+  - apply Z.leb_gt in Hpar. lia.
+  - repeat (apply andb_true_iff in Hwf as [Hwf ?]). pose proof (bin_q _ Hwf). apply Z.ltb_ge in Hpar. lia.
+  - split; [lia|auto].
+  - split; [lia|auto].
+Qed.
+
 Theorem body_ok : forall e, wf_ex conv e = true -> BodyOk e.
 Proof.
-  induction e as [t a|op r IH|op l IHl r IHr]; intros Hwf p Hp.
+  induction e as [t a|op r IH|op l r IHl IHr|t f args IHf IHa|t l i IHl IHi] using ex_ind2; intros Hwf p Hp.
   - cbn [wf_ex] in Hwf. cbn [body to_node].
     eapply parses_weaken; [|apply parses_atom; exact Hwf]. intros tk [H _]. exact H.
   - pose proof Hwf as Hwf0. cbn [wf_ex] in Hwf. apply andb_true_iff in Hwf as [Hop Hr].
     pose proof (toks_of_body r Hr (IH Hr)) as HT.
-    change (body (EPre op r)) with (op :: toks ast_PREFIX r). cbn [to_node].
+    rewrite body_pre. cbn [to_node].
     destruct fact_prefix_val as (E11 & _).
     eapply parses_weaken; [|apply parses_prefix with (K := KT ast_PREFIX r); [exact Hop|apply toks_nonempty|]].
     + intros tk [Hk Hf]. cbn [follow lvl] in Hf. split; [|split; [exact Hk|exact Hf]].
       split; [exact Hk|]. intros Hpar. apply follow_of_stops with (q := ast_PREFIX); [exact Hf|].
       apply unparen_lvl; [exact Hr|exact Hpar|rewrite E11; lia].
     + apply HT. intros Hpar. pose proof (unparen_lvl _ _ Hr Hpar ltac:(rewrite E11; lia)) as Hl.
-      destruct r as [t a|rop rr|rop rl rr]; cbn [lvl paren] in *; try (rewrite ?E11 in *; lia).
+      destruct fact_levels as (_ & _ & E12 & _).
+      destruct r as [t a|rop rr|rop rl rr|t g args|t rl ri]; cbn [lvl paren] in *; try (rewrite ?E11, ?E12 in *; lia).
       cbn [wf_ex] in Hr. repeat (apply andb_true_iff in Hr as [Hr ?]). pose proof (bin_q _ Hr).
       rewrite ?E11 in *. lia.
   - pose proof Hwf as Hwf0. cbn [wf_ex] in Hwf. repeat (apply andb_true_iff in Hwf as [Hwf ?]).
@@ -523,8 +892,7 @@ Proof.
     pose proof (toks_of_body l Hl (IHl Hl)) as HTl.
     pose proof (toks_of_body r Hr (IHr Hr)) as HTr.
     pose proof (bin_q _ Hop) as Hq.
-    set (q := precedence_of (ttype op)) in *.
-    change (body (EBin op l r)) with (toks q l ++ [op] ++ toks (right_ctx op r) r). cbn [to_node].
+    rewrite body_bin. cbn [to_node]. set (q := precedence_of (ttype op)) in *.
     cbn [lvl] in Hp. fold q in Hp.
     eapply parses_weaken;
       [|apply parses_bin with (KL := KT q l) (KR := KT (right_ctx op r) r);
@@ -540,8 +908,43 @@ Proof.
         -- destruct (table_get postfix_fns (ttype op)); [discriminate|reflexivity].
         -- intros E. match goal with X : negb (ttype op =? token_LAMBDA) = true |- _ => rewrite E in X; discriminate X end.
       * intros Hpar. apply follow_of_stops with (q := q).
-        -- right. unfold pty. rewrite Hpt. fold q. lia.
+        -- right. left. unfold pty. rewrite Hpt. fold q. lia.
         -- apply unparen_lvl; [exact Hl|exact Hpar|lia].
+  - (* call *)
+    cbn [wf_ex] in Hwf. repeat (apply andb_true_iff in Hwf as [Hwf ?]).
+    match goal with X : wf_ex conv f = true |- _ => rename X into Hf end.
+    match goal with X : forallb _ args = true |- _ => rename X into Hargs end.
+    apply Z.eqb_eq in Hwf. rename Hwf into Ht.
+    pose proof (toks_of_body f Hf (IHf Hf)) as HTf.
+    assert (HA : ArgsOk args).
+    { clear -Hargs IHa. induction args as [|a rest IHr]; [constructor|].
+      cbn [forallb] in Hargs. apply andb_true_iff in Hargs as [Ha Hrest].
+      inversion IHa as [|? ? Ea Erest]; subst. constructor; [|now apply IHr].
+      split; [exact Ha|]. apply toks_of_body; [exact Ha|now apply Ea]. }
+    rewrite body_call. cbn [to_node]. cbn [lvl] in Hp.
+    destruct fact_levels as (_ & _ & E12 & _).
+    eapply parses_weaken; [|apply parses_call with (K := KT ast_CALL f); [exact Ht|exact HA|exact Hp| |]].
+    + intros; exact I.
+    + apply HTf. intros Hpar. rewrite E12 in *. exact (proj1 (tight_ctx 12 f p Hf ltac:(lia) Hpar Hp)).
+    + intros pt Hpt. split.
+      * unfold tkok, pty. rewrite Hpt, Ht. split; [exact fact_lparen_nopostfix|discriminate].
+      * intros Hpar. rewrite E12 in *. exact (proj2 (tight_ctx 12 f p Hf ltac:(lia) Hpar Hp) pt).
+  - (* index *)
+    cbn [wf_ex] in Hwf. repeat (apply andb_true_iff in Hwf as [Hwf ?]).
+    match goal with X : wf_ex conv l = true |- _ => rename X into Hl end.
+    match goal with X : wf_ex conv i = true |- _ => rename X into Hi end.
+    apply Z.eqb_eq in Hwf. rename Hwf into Ht.
+    pose proof (toks_of_body l Hl (IHl Hl)) as HTl.
+    pose proof (toks_of_body i Hi (IHi Hi)) as HTi.
+    rewrite body_index. cbn [to_node]. cbn [lvl] in Hp.
+    destruct fact_levels as (_ & _ & E12 & _ & Elb & _).
+    assert (Ecl : precedence_of (ttype t) = 13) by (rewrite Ht; exact Elb).
+    eapply parses_weaken; [|apply parses_index with (K := KT (precedence_of (ttype t)) l); [exact Ht|exact Hi|exact HTi|exact Hp| |]].
+    + intros; exact I.
+    + apply HTl. intros Hpar. rewrite Ecl, E12 in *. exact (proj1 (tight_ctx 13 l p Hl ltac:(lia) Hpar Hp)).
+    + intros pt Hpt. split.
+      * unfold tkok, pty. rewrite Hpt, Ht. split; [exact fact_lbracket_nopostfix|discriminate].
+      * intros Hpar. rewrite Ecl, E12 in *. exact (proj2 (tight_ctx 13 l p Hl ltac:(lia) Hpar Hp) pt).
 Qed.
 
 Theorem toks_ok : forall e, wf_ex conv e = true -> ToksOk e.
@@ -594,93 +997,6 @@ Lemma fact_return_noprefix : table_get prefix_fns token_RETURN = None. Proof. re
 
 Definition eof_ptok : ptok := mkPtok (mkTok token_EOF []) false false.
 
-Theorem fragment_program_roundtrip conv e pts :
-  wf_ex conv e = true -> map pk pts = body e ->
-  exists f0, forall fuel, (f0 <= fuel)%nat ->
-    parse_program conv fuel token_EOF pts
-    = POk (mkPres [Some (to_node e)] [] false true).
-Proof.
-  intros Hwf Hm.
-  assert (Hone : exists f, parse_program conv f token_EOF pts = POk (mkPres [Some (to_node e)] [] false true)).
-  2:{ destruct Hone as [f Hf]. exists f. intros fuel Hle. eapply parse_program_fuel_monotone; eassumption. }
-  unfold parse_program. fold eof_ptok.
-  set (s := init_state eof_ptok pts).
-  pose proof (view_init eof_ptok pts) as Hv. fold s in Hv.
-  assert (Hpn : pts <> []) by (apply (map_nonempty pk); rewrite Hm; apply body_nonempty).
-  assert (Hlen : List.length pts = List.length (body e)) by (rewrite <- Hm; now rewrite map_length).
-  destruct (view_at_last _ _ _ Hv Hpn) as [lastp Hse]. rewrite Hlen in Hse.
-  set (se := skip (List.length (body e) - 1) s) in *.
-  pose proof (view_peek _ _ _ _ Hse) as Hpk.
-  destruct fact_prefix_val as (E11 & E1 & _).
-  (* the expression *)
-  assert (Hexpr : exists f, parseExpression conv f ast_LOWEST s = ROk (Some (to_node e)) se).
-  { pose proof (toks_ok conv e Hwf 0 ast_LOWEST) as HT.
-    assert (Hpar : paren 0 e = false).
-    { destruct e as [t a|op r|op l r]; cbn [paren]; try reflexivity.
-      cbn [wf_ex] in Hwf. repeat (apply andb_true_iff in Hwf as [Hwf ?]). pose proof (bin_q _ Hwf). lia. }
-    unfold toks in HT. rewrite Hpar in HT.
-    eapply (HT ltac:(intros _; rewrite E1; now apply (lvl_low conv)) pts eof_ptok); [exact Hm| |exact Hv|].
-    - split; [split; [exact fact_eof_nopostfix|discriminate]|]. intros _.
-      apply follow_of_stops with (q := 1); [|pose proof (lvl_low conv e Hwf); lia].
-      right. change (pty eof_ptok) with token_EOF. rewrite fact_eof_prec, E1. lia.
-    - exists 1%nat. apply el_stop with (tk := eof_ptok); [|exact Hpk].
-      right. change (pty eof_ptok) with token_EOF. rewrite fact_eof_prec. lia. }
-  destruct Hexpr as [f Hpe].
-  (* the statement and the program loop *)
-  pose proof (body_hd_prefix conv e Hwf) as Hhd.
-  destruct pts as [|p1 pts']; [congruence|].
-  pose proof (view_cur _ _ _ Hv) as Hc.
-  destruct (body e) as [|t1 bt] eqn:Eb; [contradiction|]. cbn [map] in Hm. injection Hm as Hp1 Hm'.
-  rename Hhd into Hpre.
-  assert (Hret : ttype t1 <> token_RETURN) by (intros X; rewrite X, fact_return_noprefix in Hpre; now apply Hpre).
-  assert (Hcur_eof : curIs s token_EOF = false).
-  { unfold curIs, pty. rewrite Hc, Hp1. apply Z.eqb_neq. intros X. rewrite X in Hpre. now apply Hpre. }
-  assert (Hcur_eol : curIs s token_EOL = false).
-  { unfold curIs, pty. rewrite Hc, Hp1. apply Z.eqb_neq. intros X. rewrite X in Hpre. now apply Hpre. }
-  assert (Hcur_ret : curIs s token_RETURN = false).
-  { unfold curIs, pty. rewrite Hc, Hp1. now apply Z.eqb_neq. }
-  exists (S (S (S f))).
-  cbn [programLoop]. rewrite Hcur_eof, Hcur_eol. cbn [orb].
-  rewrite parseStatement_S, Hcur_ret.
-  rewrite (parseExpression_mono conv f (S f) ast_LOWEST s _ _ ltac:(lia) Hpe).
-  assert (Hsemi : peekIs se token_SEMICOLON = false) by (unfold peekIs; rewrite Hpk; reflexivity).
-  rewrite Hsemi. cbn [app].
-  assert (Hend : ps_cur (nextToken se) = eof_ptok) by (rewrite cur_next; exact Hpk).
-  assert (Hce : curIs (nextToken se) token_EOF = true) by (unfold curIs; rewrite Hend; reflexivity).
-  rewrite Hce. cbn [orb].
-  (* the final state: no error, no continuation, everything lexed *)
-  change (nextToken se) with (skip 1 se). unfold se. rewrite <- skip_add.
-  unfold s, init_state.
-  match goal with |- context [nextToken (nextToken ?s0)] => change (nextToken (nextToken s0)) with (skip 2 s0); set (z := s0) end.
-  rewrite <- skip_add.
-  destruct (skip_fields (2 + (List.length (t1 :: bt) - 1 + 1)) z) as (-> & -> & ->).
-  cbn [ps_errs ps_cont ps_rest z rev].
-  rewrite skipn_all2; [reflexivity|]. cbn [List.length] in Hlen |- *. lia.
-Qed.
-
-(* ---------- consequence for C03: formatted text is a fixpoint at token level ---------- *)
-Lemma of_to_node e : of_node (to_node e) = Some e.
-Proof.
-  induction e as [t a|op r IH|op l IHl r IHr]; cbn [to_node of_node].
-  - destruct a; cbn [atom_node of_node]; try reflexivity. now rewrite Bool.eqb_reflx.
-  - now rewrite IH.
-  - now rewrite IHl, IHr.
-Qed.
-
-(* parsing the tokens of formatted fragment text and formatting again gives the same tokens *)
-Theorem fragment_format_fixpoint conv e pts :
-  wf_ex conv e = true -> map pk pts = body e ->
-  exists f0, forall fuel, (f0 <= fuel)%nat ->
-    match parse_program conv fuel token_EOF pts with
-    | POk r => frag_tokens conv (pr_tree r) = Some (body e)
-    | _ => False
-    end.
-Proof.
-  intros Hwf Hm. destruct (fragment_program_roundtrip conv e pts Hwf Hm) as [f0 H].
-  exists f0. intros fuel Hle. rewrite (H fuel Hle). cbn [pr_tree frag_tokens].
-  now rewrite of_to_node, Hwf.
-Qed.
-
 (* ---------- a program that is a sequence of fragment expression statements ---------- *)
 Lemma fact_semicolon_noprefix : table_get prefix_fns token_SEMICOLON = None. Proof. reflexivity. Qed.
 
@@ -692,7 +1008,7 @@ Proof. intros Hle. induction Hle as [|f' Hle IH]; [auto|]. intros H. apply progr
    `=>`, and either without infix precedence or an opening parenthesis / bracket preceded by white space *)
 Definition starts_fresh (tk : ptok) : Prop := tkok tk /\ stops ast_LOWEST tk.
 
-Definition stmt_ok (conv : numconv) (e : ex) (pts : list ptok) : Prop := wf_ex conv e = true /\ map pk pts = body e.
+Definition stmt_ok (conv : numconv) (e : ex) (pts : list ptok) : Prop := wf_ex conv e = true /\ matches pts (body e).
 
 Lemma frag_prog_loop conv : forall es ptss, Forall2 (stmt_ok conv) es ptss ->
   (forall pts, In pts (tl ptss) -> match pts with t :: _ => starts_fresh t | [] => True end) ->
@@ -705,8 +1021,8 @@ Proof.
     cbn [programLoop]. unfold curIs. rewrite Hc. cbn. now rewrite app_nil_r.
   - cbn [List.concat] in Hv |- *.
     destruct fact_prefix_val as (E11 & E1 & _).
-    assert (Hpn : pts <> []) by (apply (map_nonempty pk); rewrite Hm; apply body_nonempty).
-    assert (Hlen : List.length pts = List.length (body e)) by (rewrite <- Hm; now rewrite map_length).
+    assert (Hpn : pts <> []) by (eapply matches_nonempty; [exact Hm|apply body_nonempty]).
+    assert (Hlen : List.length pts = List.length (body e)) by (now apply matches_length).
     (* the token that follows this statement *)
     set (follow_l := List.concat ptss ++ [eof_ptok]) in *.
     assert (Htk : exists tk more, follow_l = tk :: more /\ tkok tk /\ stops ast_LOWEST tk
@@ -716,11 +1032,12 @@ Proof.
         right. left. change (pty eof_ptok) with token_EOF. rewrite fact_eof_prec. lia.
       - inversion HF as [|e2 ? es' ? [Hwf2 Hm2] HF']; subst.
         pose proof (body_hd_prefix conv e2 Hwf2) as Hhd.
-        destruct pts2 as [|t2 pts2']; [rewrite <- Hm2 in Hhd; contradiction|].
+        destruct pts2 as [|t2 pts2']; [apply matches_length in Hm2; pose proof (body_nonempty e2); destruct (body e2); [congruence|discriminate Hm2]|].
         exists t2, (pts2' ++ List.concat ptss' ++ [eof_ptok]). split; [cbn [List.concat app]; now rewrite <- app_assoc|].
         specialize (Hfresh (t2 :: pts2') (or_introl eq_refl)). destruct Hfresh as [H1 H2].
         repeat split; try apply H1; try exact H2.
-        rewrite <- Hm2 in Hhd. cbn [map] in Hhd. unfold pty. intros X. rewrite X, fact_semicolon_noprefix in Hhd.
+        destruct (body e2) as [|m2 ms2]; [contradiction|]. apply matches_cons_inv in Hm2 as (? & ? & Ep & [Hp2 _] & _).
+        injection Ep as <- _. cbn [hd_prefix] in Hhd. unfold pty. rewrite Hp2. intros X. rewrite X, fact_semicolon_noprefix in Hhd.
         now apply Hhd. }
     destruct Htk as (tk & more & Efl & Hk & Hst & Hns). rewrite <- app_assoc in Hv. fold follow_l in Hv. rewrite Efl in Hv.
     assert (Hv1 : view s (pts ++ [tk])).
@@ -731,8 +1048,11 @@ Proof.
     assert (Hexpr : exists f, parseExpression conv f ast_LOWEST s = ROk (Some (to_node e)) se).
     { pose proof (toks_ok conv e Hwf 0 ast_LOWEST) as HT.
       assert (Hpar : paren 0 e = false).
-      { destruct e as [t a|op r|op l r]; cbn [paren]; try reflexivity.
-        cbn [wf_ex] in Hwf. repeat (apply andb_true_iff in Hwf as [Hwf ?]). pose proof (bin_q _ Hwf). lia. }
+      { clear -Hwf. destruct (fact_levels) as (E11' & _ & _ & _ & Elb & _).
+        destruct e as [t a|op r|op l r|t f args|t l i]; cbn [paren]; try reflexivity; cbn [wf_ex] in Hwf;
+          repeat (apply andb_true_iff in Hwf as [Hwf ?]).
+        - pose proof (bin_q _ Hwf). lia.
+        - apply Z.eqb_eq in Hwf. rewrite Hwf, Elb. reflexivity. }
       unfold toks in HT. rewrite Hpar in HT.
       eapply (HT ltac:(intros _; rewrite E1; now apply (lvl_low conv)) pts tk); [exact Hm| |exact Hv1|].
       - split; [exact Hk|]. intros _. apply follow_of_stops with (q := ast_LOWEST); [exact Hst|].
@@ -751,7 +1071,9 @@ Proof.
     pose proof (body_hd_prefix conv e Hwf) as Hpre.
     destruct pts as [|p1 pts']; [congruence|].
     assert (Hc : ps_cur s = p1) by (apply view_cur with (l := pts' ++ tk :: more); exact Hv).
-    destruct (body e) as [|t1 bt] eqn:Eb; [contradiction|]. cbn [map] in Hm. injection Hm as Hp1 Hm'.
+    destruct (body e) as [|m1 bt] eqn:Eb; [contradiction|].
+    apply matches_cons_inv in Hm as (? & ? & Ep & [Hp1 _] & Hm'). injection Ep as <- <-. set (t1 := fst m1) in *.
+    cbn [hd_prefix] in Hpre. fold t1 in Hpre.
     assert (Hret : ttype t1 <> token_RETURN) by (intros X; rewrite X, fact_return_noprefix in Hpre; now apply Hpre).
     assert (Hcur_eof : curIs s token_EOF = false).
     { unfold curIs, pty. rewrite Hc, Hp1. apply Z.eqb_neq. intros X. rewrite X in Hpre. now apply Hpre. }
@@ -768,7 +1090,7 @@ Proof.
     rewrite (programLoop_mono_le conv f2 F' _ _ _ _ ltac:(unfold F', F; lia) Hrest).
     f_equal.
     + rewrite <- app_assoc. reflexivity.
-    + unfold se. change (nextToken (skip (List.length (t1 :: bt) - 1) s)) with (skip 1 (skip (List.length (t1 :: bt) - 1) s)).
+    + unfold se. change (nextToken (skip (List.length (m1 :: bt) - 1) s)) with (skip 1 (skip (List.length (m1 :: bt) - 1) s)).
       rewrite <- !skip_add. f_equal. rewrite app_length. cbn [List.length] in Hlen |- *. lia.
 Qed.
 
@@ -792,4 +1114,46 @@ Proof.
   rewrite <- skip_add.
   destruct (skip_fields (2 + List.length (List.concat ptss)) z) as (-> & -> & ->).
   cbn [ps_errs ps_cont ps_rest z rev]. rewrite skipn_all2; [reflexivity|lia].
+Qed.
+
+(* a program that is one fragment expression *)
+Theorem fragment_program_roundtrip conv e pts :
+  wf_ex conv e = true -> matches pts (body e) ->
+  exists f0, forall fuel, (f0 <= fuel)%nat ->
+    parse_program conv fuel token_EOF pts
+    = POk (mkPres [Some (to_node e)] [] false true).
+Proof.
+  intros Hwf Hm.
+  destruct (fragment_statements_roundtrip conv [e] [pts]) as [f0 H].
+  - constructor; [split; assumption|constructor].
+  - intros p [].
+  - exists f0. intros fuel Hle. specialize (H fuel Hle). cbn [List.concat map] in H. now rewrite app_nil_r in H.
+Qed.
+
+(* ---------- consequence for C03: formatted text is a fixpoint at token level ---------- *)
+Lemma of_to_node e : of_node (to_node e) = Some e.
+Proof.
+  induction e as [t a|op r IH|op l r IHl IHr|t f args IHf IHa|t l i IHl IHi] using ex_ind2; cbn [to_node of_node].
+  - destruct a; cbn [atom_node of_node]; try reflexivity. now rewrite Bool.eqb_reflx.
+  - now rewrite IH.
+  - now rewrite IHl, IHr.
+  - rewrite IHf.
+    match goal with |- match ?g (map _ args) with _ => _ end = _ => assert (Hg : g (map (fun a => Some (to_node a)) args) = Some args) end.
+    { induction IHa as [|a rest Ha _ IHr]; [reflexivity|]. cbn [map]. rewrite Ha, IHr. reflexivity. }
+    now rewrite Hg.
+  - now rewrite IHl, IHi.
+Qed.
+
+(* parsing the tokens of formatted fragment text and formatting again gives the same tokens *)
+Theorem fragment_format_fixpoint conv e pts :
+  wf_ex conv e = true -> matches pts (body e) ->
+  exists f0, forall fuel, (f0 <= fuel)%nat ->
+    match parse_program conv fuel token_EOF pts with
+    | POk r => frag_tokens conv (pr_tree r) = Some (plain_toks (body e))
+    | _ => False
+    end.
+Proof.
+  intros Hwf Hm. destruct (fragment_program_roundtrip conv e pts Hwf Hm) as [f0 H].
+  exists f0. intros fuel Hle. rewrite (H fuel Hle). cbn [pr_tree frag_tokens].
+  now rewrite of_to_node, Hwf.
 Qed.
